@@ -18,7 +18,7 @@ from mc import core, httpharness as hh
 PROPERTY = 'C15'
 LEVEL = 'model_checking'
 RULE = ('case = body kind {empty str, str, bytes, list, list with None, returned generator (coroutine), streamed generator of str / of '
-        'bytes / with empty items first-middle-last / many chunks, file object, file-like object with short reads, streamed list, non-streamed generator / tuple, str / bytes / list with streaming switched on} x size {0, small with multi-byte '
+        'bytes / with empty items first-middle-last / many chunks, file object, file-like object with short reads, streamed list, non-streamed generator / tuple, str / bytes / list with streaming switched on, streamed generator failing before the first / after the second chunk} x size {0, small with multi-byte '
         'characters, 70 KiB} x status {200, 201, 204, 304, 302 via a returned redirect event, 303 via raise Redirect, 403 via raise Forbidden, 404 via notfound(), 500 via raise} x entry {plain component handling `request`, Controller method behind the Dispatcher} x HTTP/1.0 | 1.1 x Connection {absent, '
         'keep-alive, close; also written Close, CLOSE, Keep-Alive, KEEP-ALIVE and inside a list of options} x {GET, HEAD}; every single case and every sequence of 2 (thorough: 3 from a reduced menu) cases on one '
         'connection; non-trivial = every case; distinct = distinct case sequence')
@@ -87,6 +87,18 @@ def make_body(kind, size, res):
             res.body = chunks(text, 3)
             return res, data
         return (text if kind == 'stream_str' else data), data
+    if kind in ('gen_raise_mid', 'gen_raise_first'):
+        # a streamed body whose producer fails after two chunks / before the first one: the headers have gone out, so the only
+        # way left to tell the client is to end the connection - the chunks produced so far, no second message, no open end
+        items = chunks(text, 3)[:2] if kind == 'gen_raise_mid' else []
+
+        def failing():
+            for x in items:
+                yield x
+            raise RuntimeError('the producer of the body failed')
+        res.stream = True
+        res.body = failing()
+        return res, ''.join(items).encode('utf-8')
     if kind in ('gen_nostream', 'tuple'):
         # an iterable body of unknown length that is NOT streamed: joined and sent at once (chunked for 1.1, until-close for 1.0)
         items = chunks(text, 3)
@@ -245,6 +257,10 @@ def judge(seq, out, expect):
         if not data:
             bad.append(('no-response:' + cls, 'nothing was written for request %d [%s]' % (i + 1, tag)))
             continue
+        if kind in ('gen_raise_mid', 'gen_raise_first') and method != 'HEAD':
+            bad.extend(judge_aborted(data, closed, expect[i] if i < len(expect) else b'', cls, tag))
+            prev_closed = closed
+            continue
         try:
             r, body, consumed = decode(data, method)
         except Exception as exc:  # noqa: BLE001
@@ -294,6 +310,35 @@ def judge(seq, out, expect):
     return bad
 
 
+def judge_aborted(data, closed, produced, cls, tag):
+    """the body's producer failed: one message on the wire carrying what had been produced, then the connection is closed"""
+    bad = []
+    if data.count(b'HTTP/1.') != 1 or not data.startswith(b'HTTP/1.'):
+        bad.append(('aborted-stream:second-message:' + cls, 'the producer of the body failed; %d status lines on the wire (a second message '
+                    'behind the unfinished one) [%s]' % (data.count(b'HTTP/1.'), tag)))
+        return bad
+    if not closed:
+        bad.append(('aborted-stream:left-open:' + cls, 'the producer of the body failed; the unfinished response is left as it is and the '
+                    'connection stays open (the client waits for ever, its next request is taken for part of this one) [%s]' % tag))
+    fs = FakeSock(data)
+    r = http.client.HTTPResponse(fs, method='GET')
+    try:
+        r.begin()
+        try:
+            body = r.read()
+            complete = True
+        except http.client.IncompleteRead as exc:
+            body, complete = exc.partial, False
+    except Exception as exc:  # noqa: BLE001
+        bad.append(('undecodable:' + cls, 'http.client cannot decode the head of the response: %r [%s]' % (exc, tag)))
+        return bad
+    if body != produced:
+        bad.append(('aborted-stream:body:' + cls, 'body bytes on the wire %r, produced before the failure %r [%s]' % (body[:40], produced[:40], tag)))
+    if complete and (r.chunked or r.length is not None):
+        bad.append(('aborted-stream:looks-complete:' + cls, 'the unfinished body is delimited like a complete one [%s]' % tag))
+    return bad
+
+
 def single_cases(tier):
     for kind in KINDS:
         for size in ('zero', 'small', 'big'):
@@ -306,6 +351,11 @@ def single_cases(tier):
                             if kind == 'coroutine' and size == 'zero':
                                 continue    # a handler that produces no value at all means "not handled" (404) by design
                             yield (kind, size, status, version, conn, method)
+    for kind in ('gen_raise_mid', 'gen_raise_first'):
+        for version in ('1.0', '1.1'):
+            for conn in (None, 'keep-alive', 'close'):
+                for method in ('GET', 'HEAD'):
+                    yield (kind, 'small', 200, version, conn, method)
     for status in (204, 304):
         for kind in ('str', 'gen_str', 'file', 'list'):
             # 'small': the application left a body there - these statuses are sent without one all the same
